@@ -739,9 +739,9 @@ Definition run_result_ok (g : geom) (ops : list op) : Prop :=
   trace_ok g 0 ops (snd res) /\
   Forall (fun yp => snd yp = ideal_s (fst yp) /\ 0 <= fst yp < gH g) (delivered (snd res)).
 
-Lemma combine_rows_of g s k :
+Lemma combine_rows_of s k :
   Forall (fun yp => snd yp = ideal_s (fst yp) /\ s <= fst yp < s + Z.max 0 k)
-         (combine (zseq s (length (rows_of g s k))) (rows_of g s k)).
+         (combine (zseq s (length (rows_of s k))) (rows_of s k)).
 Proof.
   unfold rows_of. rewrite map_length, zseq_length.
   assert (Hk : Z.max 0 k = Z.of_nat (Z.to_nat k)) by lia. rewrite Hk. clear Hk.
